@@ -66,6 +66,8 @@ def cases(tier, seed):
         yield {"fam": "processes", "i": i}
     for i in range(8 if tier == "quick" else 96):
         yield {"fam": "processes_fresh", "i": i}
+    for i in range(8 if tier == "quick" else 96):
+        yield {"fam": "parent_stat", "i": i}
 
 
 def setup(ctx):
@@ -477,6 +479,69 @@ def pool_call(agg, evdir, seed, split, pred, refa, name):
     return name
 
 
+def _plain_worker(agg, names):
+    sys.stdout = open(os.devnull, "w")
+    for n in names:
+        agg.evaluate(*subject_input(n), n)
+    os._exit(0)
+
+
+def run_parent_statistic(ctx, i, r, det0):
+    """the parent evaluates one subject and builds a statistic (which succeeds: there is a row), then forked workers /
+    a second aggregator object on the same file add rows, then the parent asks again: a statistics object built at any
+    moment reflects the complete rows of that moment"""
+    from panoptica import Panoptica_Aggregator
+    from vf import sched
+
+    sched.reset("off")
+    d = tempfile.mkdtemp(prefix="c16s_", dir=os.environ.get("VERIF_TMP"))
+    agg, ev, path = new_aggregator(d)
+    names = [str(x) for x in r.permutation(NAMES)]
+    first, rest = names[0], names[1 : 1 + int(r.integers(2, 5))]
+    det = dict(det0, first=first, others=rest, mode=["processes", "second_object", "threads"][i % 3])
+    feats = {"mode": "parent_statistic_" + det["mode"], "kind": "snapshot_misses_a_row_complete_before_the_call"}
+    ctx.count("evaluations")
+    try:
+        agg.evaluate(*subject_input(first), first)
+        st1 = agg.make_statistic()
+        if set(st1.subjectnames) != {first}:
+            ctx.viol("snapshot_misses_a_row_complete_before_the_call", dict(det, snapshot=sorted(st1.subjectnames), complete_before=[first]), features=feats)
+            return
+        if i % 3 == 0:
+            half = [rest[0::2], rest[1::2]]
+            procs = [multiprocessing.Process(target=_plain_worker, args=(agg, h)) for h in half if h]
+            for p in procs:
+                p.start()
+            for p in procs:
+                p.join(120)
+            if any(p.is_alive() for p in procs):
+                for p in procs:
+                    p.kill()
+                ctx.count("C16.inconclusive_watchdog")
+                return
+        elif i % 3 == 1:
+            other = Panoptica_Aggregator(ev, path)
+            for n in rest:
+                other.evaluate(*subject_input(n), n)
+        else:
+            ts = [threading.Thread(target=lambda n=n: agg.evaluate(*subject_input(n), n)) for n in rest]
+            for t in ts:
+                t.start()
+            for t in ts:
+                t.join(120)
+        st2 = agg.make_statistic()
+    except Exception as e:  # noqa: BLE001
+        ctx.viol("call_raised", dict(det, exc=repr(e)[:300]), features=dict(feats, kind="call_raised"))
+        return
+    ctx.count("C16.parent_statistics_judged")
+    ctx.count("C16.snapshots_judged")
+    want = {first, *rest}
+    if set(st2.subjectnames) != want:
+        ctx.viol("snapshot_misses_a_row_complete_before_the_call", dict(det, snapshot=sorted(st2.subjectnames), complete_before=sorted(want), where="parent, after the others have returned"), features=feats)
+        return
+    ctx.nontrivial("parent_stat", i, first, tuple(rest))
+
+
 def run_processes(ctx, hist, r, split, use_pool, det0, pool_first=False, continue_file=True):
     from vf import sched
 
@@ -597,6 +662,8 @@ def run(case, ctx):
         return
     r = gen.rng(ctx.seed, "c16", fam, i)
     det0 = {"family": fam}
+    if fam == "parent_stat":
+        return run_parent_statistic(ctx, i, r, det0)
     if fam in ("controlled", "dfs", "lines", "lines_eval") and not sched.T.locks_traced:
         ctx.count("C16.controlled_scheduling_unavailable")
         return
